@@ -98,3 +98,9 @@ Definition run_strided_mut (base : list float) (off : nat) (step : Z) (len : nat
 Definition run_vec_mut (l : list float) : list Z :=
   observe_mut (fun l' : list float => l') (length l) (list_uset l)
               (fun k v => Some (list_uset l k v)).
+
+(* iter.rs IntoTIter::into_titer (consumes the container): forward and backward *)
+Definition run_into_titer (l : list float) : list Z := cells c_float l ++ c_sep ++ cells c_float (rev l).
+Definition run_into_titer_ring (first second : list float) : list Z :=
+  let r := {| rbuf := second ++ first; rhead := length second; rlen := length first + length second |} in
+  run_into_titer (ring_to_list r).
